@@ -54,6 +54,7 @@ type scenario struct {
 	stdCert          int    // TLS server certificate: 0 ECDSA, 1 RSA
 	extras           bool   // TLS: stapled OCSP response and SCTs on the server certificate, ALPN on both sides
 	noDyn            bool   // DynamicRecordSizingDisabled on the library endpoints
+	via              int    // how the library endpoints get their Config: 0 as built, 1 Config.Clone(), 2 server through GetConfigForClient returning a clone (client: clone)
 }
 
 func ex2(ex, base string) string { return base + ex }
@@ -65,6 +66,9 @@ func (s scenario) String() string {
 	}
 	if s.noDyn {
 		ex += " DynamicRecordSizingDisabled"
+	}
+	if s.via != 0 {
+		ex += []string{"", " via Config.Clone()", " via GetConfigForClient -> Clone()"}[s.via]
 	}
 	return ex2(ex, fmt.Sprintf("server=%s client=%s cSuites=%04x sSuites=%04x preferServer=%v clientAuth=%d clientCert=%d callbacks=%v ticketsOff=%v vers=%04x stdCert=%d",
 		modeNames[s.mode], cliNames[s.client], s.cSuites, s.sSuites, s.preferServer, s.auth, s.clientCert, s.callbacks, s.ticketsOff, s.vers, s.stdCert))
@@ -303,7 +307,11 @@ func runScenario(c *harness.Ctx, s scenario, app [2]tlsk.App, kind string) {
 		}
 		cs = tlsk.StdEnd(cc, true, app[0], &cv)
 	} else {
-		cs = tlsk.GMEnd(clientConfig(s, p, kl), true, app[0], &cv, nil)
+		ccfg := clientConfig(s, p, kl)
+		if s.via != 0 {
+			ccfg = ccfg.Clone()
+		}
+		cs = tlsk.GMEnd(ccfg, true, app[0], &cv, nil)
 	}
 	if s.mode == modeStdServer {
 		sc := &stdtls.Config{Time: tlsk.FixedTime, MaxVersion: stdtls.VersionTLS12, ClientAuth: stdtls.ClientAuthType(s.auth)}
@@ -327,7 +335,15 @@ func runScenario(c *harness.Ctx, s scenario, app [2]tlsk.App, kind string) {
 		}
 		ss = tlsk.StdEnd(sc, false, app[1], &sv)
 	} else {
-		ss = tlsk.GMEnd(serverConfig(s, p), false, app[1], &sv, nil)
+		scfg := serverConfig(s, p)
+		switch s.via {
+		case 1:
+			scfg = scfg.Clone()
+		case 2:
+			inner := scfg
+			scfg = &gmtls.Config{Time: inner.Time, Rand: inner.Rand, GMSupport: inner.GMSupport, GetConfigForClient: func(*gmtls.ClientHelloInfo) (*gmtls.Config, error) { return inner.Clone(), nil }}
+		}
+		ss = tlsk.GMEnd(scfg, false, app[1], &sv, nil)
 	}
 	o := tlsk.Run(cs, ss, &cv, &sv, nil)
 	label := s.String()
@@ -518,7 +534,9 @@ func gmUnit(mode int, part, parts int, full bool) harness.Unit {
 									if n%parts != part {
 										continue
 									}
-									runScenario(c, scenario{mode: mode, client: cliGM, cSuites: cl, sSuites: sl, preferServer: pref, auth: auth, clientCert: cert, callbacks: cb, ticketsOff: toff}, smallApp, "gm")
+									for via := 0; via < 3; via++ {
+										runScenario(c, scenario{mode: mode, client: cliGM, cSuites: cl, sSuites: sl, preferServer: pref, auth: auth, clientCert: cert, callbacks: cb, ticketsOff: toff, via: via}, smallApp, "gm")
+									}
 								}
 							}
 						}
@@ -544,7 +562,9 @@ func tlsUnit(full bool) harness.Unit {
 								if !full && auth != gmtls.NoClientCert && !(v == 0x0303 && sc == 0) {
 									continue
 								}
-								runScenario(c, scenario{mode: mode, client: cli, vers: v, stdCert: sc, auth: auth, clientCert: cert, callbacks: mode == modeAuto}, smallApp, "tls")
+								for via := 0; via < 3; via++ {
+									runScenario(c, scenario{mode: mode, client: cli, vers: v, stdCert: sc, auth: auth, clientCert: cert, callbacks: mode == modeAuto, via: via}, smallApp, "tls")
+								}
 								if mode != modeAuto && (v == 0 || v == 0x0303 || full) {
 									// the same with a stapled OCSP response, SCTs and ALPN
 									runScenario(c, scenario{mode: mode, client: cli, vers: v, stdCert: sc, auth: auth, clientCert: cert, extras: true}, smallApp, "tls")
@@ -893,6 +913,13 @@ var Prop = &harness.Prop{
 			u = append(u, tlsSuiteMatrixUnit(p, 16))
 		}
 		u = append(u, sniUnit(0x0301), sniUnit(0x0303))
+		rdepth := 4
+		if full {
+			rdepth = 5
+		}
+		for _, capacity := range []int{1, 2} {
+			u = append(u, reconnectUnit(0x0303, capacity, rdepth), reconnectUnit(0x0301, capacity, rdepth-1))
+		}
 		for _, sp := range supplyPaths() {
 			u = append(u, certSupplyUnit(sp))
 		}
